@@ -632,6 +632,17 @@ package diam
 //@   ensures [C16] answer_goes_to_the_request_stream: implements(writer, MultistreamWriter) ==> wstream(writer) == m.stream
 //@ end
 //@
+//@ # the retrying variant of WriteTo: the same single serialisation, on the message's own stream (C07, C16)
+//@ func (*Message).WriteToWithRetry(m, writer, retries) (n, err)
+//@   property C07 C16
+//@   requires serialisable(m) && writer != nil && 0 <= written(writer) && written(writer) < 1<<44
+//@   modifies written(writer), wstream(writer), wlog(writer)[written(writer):written(writer)+20+sumlen(m.AVP, len(m.AVP))], bufslice(any), bytes(any), inpool(any)
+//@   atcall WriteToStreamWithRetry: [C16] a_retried_answer_stays_on_the_request_stream: ARG0 == m && ARG2 == m.stream && ARG3 == retries
+//@   ensures [C07] one_write_of_the_whole_message: written(writer) >= old(written(writer)) && written(writer) <= old(written(writer)) + 20 + sumlen(m.AVP, len(m.AVP))
+//@   ensures [C07] complete_on_success: err == nil ==> n == int64(20 + sumlen(m.AVP, len(m.AVP))) && written(writer) == old(written(writer)) + 20 + sumlen(m.AVP, len(m.AVP))
+//@   ensures [C16] on_the_message_stream: implements(writer, MultistreamWriter) ==> wstream(writer) == m.stream
+//@ end
+//@
 //@ func NewRequest(cmd, appid, dictionary) (m)
 //@   property C12 C13
 //@   modifies
